@@ -7,6 +7,7 @@ import (
 	"bytes"
 	"fmt"
 	"reflect"
+	"strings"
 
 	"github.com/cosmos/cosmos-proto/zzverif/glue"
 	"google.golang.org/protobuf/encoding/protojson"
@@ -271,6 +272,40 @@ func engineNilRead(rep *Report) {
 				c.writesPanic("Get(unset "+string(fd.Name())+").Message()", sub)
 			}
 		}
+		// (d') a message-typed oneof member read while another member of the oneof is set
+		ods := d.Oneofs()
+		for i := 0; i < ods.Len(); i++ {
+			od := ods.Get(i)
+			if od.IsSynthetic() || od.Fields().Len() < 2 {
+				continue
+			}
+			for j := 0; j < od.Fields().Len(); j++ {
+				fd := od.Fields().Get(j)
+				if fd.Kind() != protoreflect.MessageKind {
+					continue
+				}
+				sib := od.Fields().Get((j + 1) % od.Fields().Len())
+				var sv Val
+				if sib.Kind() == protoreflect.MessageKind {
+					sv = Val{M: &Msg{D: sib.Message()}}
+				}
+				p := BuildStruct(s.Zero, &Msg{D: d, F: []*FVal{{FD: sib, S: &sv}}})
+				dy := BuildDyn(&Msg{D: d, F: []*FVal{{FD: sib, S: &sv}}})
+				var sub protoreflect.Message
+				pan, pmsg = safely(func() { sub = p.ProtoReflect().Get(fd).Message() })
+				what := "Get(" + string(fd.Name()) + " while " + string(sib.Name()) + " is set).Message()"
+				if pan {
+					c.bad("read-panic", what, pmsg)
+					continue
+				}
+				c.readsAsEmpty(what, sub, dy.Get(fd).Message(), false, 2)
+				c.writesPanic(what, sub)
+				// and the sibling is still the member that is set
+				if w := p.ProtoReflect().WhichOneof(od); w == nil || w.Number() != sib.Number() {
+					c.bad("oneof-disturbed-by-get", what, "reading an unset member changed the oneof")
+				}
+			}
+		}
 		// (e,f,g) struct-level nils inside a parent of this type
 		c.structNils(s, d)
 	}
@@ -372,6 +407,35 @@ func (c *nrCtx) compareWithSlow(what string, p1, p2 proto.Message) {
 		}},
 		{"Range+Get", func(m proto.Message) string {
 			return fmt.Sprintf("%x", SpecEncode(quietF32(Canon(ReflToIR(m.ProtoReflect())))))
+		}},
+		{"List.Get/Map.Get/Map.Has(each element)", func(m proto.Message) string {
+			r := m.ProtoReflect()
+			var out []string
+			fs := r.Descriptor().Fields()
+			for i := 0; i < fs.Len(); i++ {
+				fd := fs.Get(i)
+				switch {
+				case fd.IsList():
+					l := r.Get(fd).List()
+					for j := 0; j < l.Len(); j++ {
+						v := l.Get(j)
+						out = append(out, fmt.Sprintf("%s[%d]=%v:%s", fd.Name(), j, v.IsValid(), digestElem(fd, v)))
+					}
+				case fd.IsMap():
+					mp := r.Get(fd).Map()
+					var keys []protoreflect.MapKey
+					mp.Range(func(k protoreflect.MapKey, _ protoreflect.Value) bool { keys = append(keys, k); return true })
+					for _, k := range keys {
+						v := mp.Get(k)
+						dg := "<invalid>"
+						if v.IsValid() {
+							dg = digestElem(fd.MapValue(), v)
+						}
+						out = append(out, fmt.Sprintf("%s[%v]=has:%v valid:%v %s", fd.Name(), k.Interface(), mp.Has(k), v.IsValid(), dg))
+					}
+				}
+			}
+			return strings.Join(out, ";")
 		}},
 		{"Clone", func(m proto.Message) string {
 			cl := proto.Clone(m)
